@@ -53,10 +53,11 @@ pub fn exec_cmd(push_state: &mut PushState, _instruction_cache: &InstructionCach
             if let Some(mut nvals) = push_state.name_stack.pop_vec(num_args as usize + 1) {
                 let cmd = nvals.remove(0);
                 thread::sleep(Duration::from_millis(1000));
-                let mut child = Command::new(cmd).args(nvals).spawn().expect("Command failed to start");
-
-                if let Some(stdout) = child.stdout.as_mut() {
-                    println!("{:?}", stdout);
+                // A command that cannot be started (unknown name, invalid characters) is ignored
+                if let Ok(mut child) = Command::new(cmd).args(nvals).spawn() {
+                    if let Some(stdout) = child.stdout.as_mut() {
+                        println!("{:?}", stdout);
+                    }
                 }
             }
         }
